@@ -45,6 +45,11 @@ CHECKS.update({
    text="Exploration. 1-5 submessages per message from MessageBuilder / create_submessage / direct structs with boundary values, inline QoS, payload lengths of every residue mod 4, 0-256-bit number sets, per-submessage endianness. Oracles: structural round trip, canonical re-serialisation, framing (lengths, alignment, end), flags vs content, field-level equality with an independent decoder, number-set window rules.",
    note="HEARTBEAT_FRAG, INFO_REPLY and the security submessages are not generated in the default-feature build; interoperability with other vendors is out of reach offline.", ref="3/C14"),
 })
+CHECKS.update({
+ "C06": dict(engine="E-HOSTILE", technique="runtime monitoring under hostile input: panic capture with first in-library frame, per-datagram thread-CPU-time and heap high-water monitors (counting global allocator with single-allocation guard), CPU-time hang watchdog in subprocess shards, aftermath delivery check",
+   text="Exploration. Structure-aware hostile datagrams (boundary-valued fields, wide ranges, lying lengths/offsets/counts, inconsistent fragments, truncation, mutation, concatenation, random bytes) interleaved with state-building valid traffic are fed to a reliable keyed reader, a best-effort no_key reader and a reliable writer; each datagram is judged for panic, disproportionate CPU time or heap growth, and afterwards a never-impersonated peer's valid traffic must be delivered in order and unaltered.",
+   note="Thresholds (0.2 s CPU, 64*len+1 MiB heap, 256 MiB single request, 2 s = hang) are far from honest behaviour (microseconds, <100 KiB). Default-feature release build; cumulative growth over many datagrams and the real socket path are covered only by the sanitizer/valgrind legs when run.", ref="3/C06"),
+})
 NOT_YET = {}
 
 def main():
@@ -79,6 +84,7 @@ def main():
             {"name": "E-WIRE/WriterBench", "path": "/verif/incrate/wbench.rs + hooks_writer.rs + /verif/harness/vcheck/src/{wtr,wfa}.rs", "serves_properties": ["C04", "C20"], "kind_free_text": "hand-built Writer wired to a real DataWriter; fake readers as byte-level ACKNACK sources; timers replaced by explicit steps"},
             {"name": "E-WIRE/Link", "path": "/verif/harness/vcheck/src/link.rs", "serves_properties": ["C02", "C05"], "kind_free_text": "WriterBench and ReaderBench joined by a drop/dup/delay link in logical time"},
             {"name": "E-CODEC", "path": "/verif/incrate/codec.rs + /verif/harness/vcheck/src/{c_codec,c_qos,qosref}.rs", "serves_properties": ["C10", "C14"], "kind_free_text": "in-crate generators over the implementation's constructors; independent walker and reference tables in the harness"},
+            {"name": "E-HOSTILE", "path": "/verif/harness/vcheck/src/{hostile,c_hostile,alloc,shard}.rs", "serves_properties": ["C06"], "kind_free_text": "hostile-datagram driver over ReaderBench+WriterBench in subprocess shards with panic hook, counting allocator, CPU-time probes and watchdog"},
             {"name": "E-API", "path": "/verif/harness/vcheck/src/api.rs", "serves_properties": ["C08", "C09"], "kind_free_text": "reference model of DDS sample/view/instance semantics in lock-step with a real DataReader fed through ReaderBench; subprocess shards with CPU-time watchdog for C09"},
         ],
         "checks": checks,
